@@ -7,7 +7,9 @@ package main
 //        there are no other variables; every place gets its own copy of the shared answer
 
 import (
+	"fmt"
 	"go/token"
+	"sort"
 	"strings"
 
 	"golang.org/x/tools/go/ssa"
@@ -29,39 +31,82 @@ func innermostLoop(b *ssa.BasicBlock) map[*ssa.BasicBlock]bool {
 
 func inAnyLoop(b *ssa.BasicBlock) bool { return innermostLoop(b) != nil }
 
-// loopsAllowed: call sites that legitimately sit in a loop.
+// loopsAllowed: calls of a send-chain function that legitimately sit in a loop, keyed by the
+// calling package and the callee (not by the calling function: splitting the caller is benign).
 var loopsAllowed = map[string]string{
-	"queryer.(*MultiOpQueryer).queryBatch | queryer.(*MultiOpQueryer).fetchFile":   "one multipart request per input that carries files: each iteration sends a different request exactly once",
-	"executor.(*DepthExecutorManager).Execute | executor.(*DepthExecutor).Execute": "one pass per plan depth (checked separately: the depth variable strictly increases)",
+	"queryer | queryer.(*MultiOpQueryer).fetchFile":  "one multipart request per input that carries files: each iteration sends a different request exactly once",
+	"executor | executor.(*DepthExecutor).Execute": "one pass per plan depth (checked separately: the depth variable strictly increases)",
+}
+
+// sendChain computes the functions on call paths from root to a call of the named sink:
+// members of the region reachable from root that contain the sink call or call a member.
+func (r *Run) sendChain(root *ssa.Function, sink string) map[*ssa.Function]bool {
+	region := r.P.CG.Reachable([]*ssa.Function{root}, nil)
+	chain := map[*ssa.Function]bool{}
+	for fn := range region {
+		for _, e := range r.P.CG.Ext[fn] {
+			if e.Name == sink {
+				chain[fn] = true
+			}
+		}
+	}
+	for changed := true; changed; {
+		changed = false
+		for fn := range region {
+			if chain[fn] {
+				continue
+			}
+			for _, e := range r.P.CG.Out[fn] {
+				if e.Kind != "param" && chain[e.Callee] {
+					chain[fn] = true
+					changed = true
+					break
+				}
+			}
+		}
+	}
+	return chain
 }
 
 func ruleMultiplicity(r *Run) {
 	const rule = "R12a"
 	// the send chain: callee → must not be called from inside a loop
-	chain := []string{
-		"queryer.(*MultiOpQueryer).queryBatch", "queryer.(*MultiOpQueryer).fetch", "queryer.(*MultiOpQueryer).fetchFile",
-		"queryer.(*MultiOpQueryer).sendQueryRequest", "queryer.(*MultiOpQueryer).sendMultipartRequest", "queryer.(*MultiOpQueryer).sendRequest",
-		"executor.(*DepthExecutor).executeRequests", "executor.(*DepthExecutor).Execute",
-	}
 	n := 0
-	for _, cn := range chain {
-		callee := r.Anchor(rule, cn)
-		if callee == nil {
+	for _, rs := range [][2]string{
+		{"queryer.(*MultiOpQueryer).Query", "(*net/http.Client).Do"},
+		{"executor.(*DepthExecutorManager).Execute", "github.com/buildbuildio/pebbles/queryer.Queryer.Query"},
+	} {
+		root := r.Anchor(rule, rs[0])
+		if root == nil {
 			continue
 		}
-		for _, e := range r.P.CG.In[callee] {
-			if e.Kind == "param" || e.Kind == "hoarg" {
-				continue
+		chain := r.sendChain(root, rs[1])
+		r.Check(len(chain) >= 3 && chain[root], rule, rs[0], "send chain to "+rs[1], r.P.pos(root.Pos()),
+			fmt.Sprintf("%d functions lie on the call paths from here to the network call", len(chain)),
+			"no call path from "+rs[0]+" to "+rs[1]+" was found: the send chain cannot be checked")
+		var members []*ssa.Function
+		for fn := range chain {
+			if fn != root {
+				members = append(members, fn)
 			}
-			n++
-			site := r.P.pos(e.Site.Pos())
-			key := fnName(e.Caller) + " | " + cn
-			if !inAnyLoop(e.Site.Block()) {
-				r.OK(rule, fnName(e.Caller), "calls "+cn, site, "call site is not inside any loop of its function: executed at most once per invocation")
-			} else if why, ok := loopsAllowed[key]; ok {
-				r.Tabled(rule, fnName(e.Caller), "calls "+cn, site, "loopsAllowed", why)
-			} else {
-				r.Bad(rule, fnName(e.Caller), "calls "+cn, site, "a step of the downstream send chain is called from inside a loop: the same request can be sent more than once (retry) or once per list entry instead of once per batch")
+		}
+		sort.Slice(members, func(i, j int) bool { return fnName(members[i]) < fnName(members[j]) })
+		for _, callee := range members {
+			cn := fnName(callee)
+			for _, e := range r.P.CG.In[callee] {
+				if e.Kind == "param" || !chain[e.Caller] {
+					continue
+				}
+				n++
+				site := r.P.pos(e.Site.Pos())
+				key := shortPkg(topFn(e.Caller).Pkg.Pkg.Path()) + " | " + cn
+				if !inAnyLoop(e.Site.Block()) {
+					r.OK(rule, fnName(e.Caller), "calls "+cn, site, "call site is not inside any loop of its function: executed at most once per invocation")
+				} else if why, ok := loopsAllowed[key]; ok {
+					r.Tabled(rule, fnName(e.Caller), "calls "+cn, site, "loopsAllowed", why)
+				} else {
+					r.Bad(rule, fnName(e.Caller), "calls "+cn, site, "a step of the downstream send chain is called from inside a loop: the same request can be sent more than once (retry) or once per list entry instead of once per batch")
+				}
 			}
 		}
 	}
